@@ -640,17 +640,17 @@ Definition fmt_v_num (f : float) : str :=
   | None => o_fmt_float o (spec0 118) f
   end.
 
-(* the range test as the code writes it: `x < 0 || x > hi` is the error case
-   (false for NaN: NaN passes) *)
+(* the range test as the code wrote it before 1433667: `x < 0 || x > hi` is the
+   error case (false for NaN: NaN passed) *)
 Definition hsl_out_of_range (x hi : float) : bool := PrimFloat.ltb x 0 || PrimFloat.ltb hi x.
-(* the documented range: "must be between 0 and hi" *)
+(* the documented range, and the code's test since 1433667: "must be between 0 and hi" *)
 Definition hsl_in_range (x hi : float) : bool := PrimFloat.leb 0 x && PrimFloat.leb x hi.
 
 Definition hsl_text (h sa l a : float) : str :=
   s_ "hsl(" ++ fmt_v_num h ++ s_ "deg " ++ fmt_v_num sa ++ s_ "% " ++ fmt_v_num l ++ s_ "% / " ++ fmt_v_num a ++ s_ "%)".
 
 Section Hsl.
-Variable bad : float -> float -> bool.   (* which values are rejected: the code's test, or the documented one *)
+Variable bad : float -> float -> bool.   (* which values are rejected: the test in force, or the one before the fix *)
 (* hslFunc: 1 to 4 numbers; hue in [0,360]; saturation, lightness, alpha in
    [0,100] with defaults 100, 50, 100; result "hsl(<h>deg <s>% <l>% / <a>%)" *)
 Definition hsl_with (nums : list float) : outcome :=
@@ -668,10 +668,10 @@ Definition hsl_with (nums : list float) : outcome :=
       ORet (VStr (hsl_text h sa l a))
   end.
 End Hsl.
-(* the code *)
-Definition hsl_model : list float -> outcome := hsl_with hsl_out_of_range.
-(* corrected: NaN rejected like every other value outside the documented range *)
-Definition hsl_fixed : list float -> outcome := hsl_with (fun x hi => negb (hsl_in_range x hi)).
+(* the code (since 1433667): `!(x >= 0 && x <= max)` is the error case, so NaN is rejected too *)
+Definition hsl_model : list float -> outcome := hsl_with (fun x hi => negb (hsl_in_range x hi)).
+(* before 1433667: `x < 0 || x > max`, false for NaN. Kept for the regression lemma only. *)
+Definition hsl_before_fix : list float -> outcome := hsl_with hsl_out_of_range.
 
 Fixpoint nums_of (args : list val) : option (list float) :=
   match args with
